@@ -261,11 +261,17 @@ class Gen:
             self.features.add("step!=1")
         if carried:
             self.features.add("carried")
-            init = rng.choice(scope["i32"])
-            p = self.fresh("p")
-            res = self.fresh("r")
-            self.emit(ind, f"{res} = scf.for {iv} = {lbv} to {ubv} step {stv} iter_args({p} = {init}) -> (i32) {{")
-            inner["i32"].append(p)
+            ncar = rng.choice([1, 1, 2, 3])
+            if ncar > 1:
+                self.features.add("several-carried")
+            inits = [rng.choice(scope["i32"]) for _ in range(ncar)]
+            ps = [self.fresh("p") for _ in range(ncar)]
+            ress = [self.fresh("r") for _ in range(ncar)]
+            self.emit(
+                ind,
+                f"{', '.join(ress)} = scf.for {iv} = {lbv} to {ubv} step {stv} iter_args({', '.join(f'{p} = {i}' for p, i in zip(ps, inits))}) -> ({', '.join(['i32'] * ncar)}) {{",
+            )
+            inner["i32"].extend(ps)
         else:
             self.emit(ind, f"scf.for {iv} = {lbv} to {ubv} step {stv} {{")
         # iv-derived i32 value
@@ -287,12 +293,15 @@ class Gen:
                 self.launch(ind + 1, inner, acc)
             self.features.add("relaunch-after-clobber-in-loop")
         if carried:
-            nxt = self.fresh()
-            other = rng.choice(inner["i32"])
-            self.emit(ind + 1, f"{nxt} = arith.addi {p}, {other} : i32")
-            self.emit(ind + 1, f"scf.yield {nxt} : i32")
+            nxts = []
+            for p in ps:
+                nxt = self.fresh()
+                other = rng.choice(inner["i32"])
+                self.emit(ind + 1, f"{nxt} = arith.addi {p}, {other} : i32")
+                nxts.append(nxt)
+            self.emit(ind + 1, f"scf.yield {', '.join(nxts)} : {', '.join(['i32'] * ncar)}")
             self.emit(ind, "}")
-            scope["i32"].append(res)
+            scope["i32"].extend(ress)
         else:
             self.emit(ind + 1, "scf.yield")
             self.emit(ind, "}")
@@ -326,13 +335,16 @@ class Gen:
         then_scope = {"i32": list(scope["i32"]), "index": list(scope["index"]), "states": {}}
         else_scope = {"i32": list(scope["i32"]), "index": list(scope["index"]), "states": {}}
         if with_res:
-            res = self.fresh("r")
-            self.emit(ind, f"{res} = scf.if {c} -> (i32) {{")
+            nres = rng.choice([1, 1, 2, 3])
+            if nres > 1:
+                self.features.add("several-if-results")
+            ress = [self.fresh("r") for _ in range(nres)]
+            self.emit(ind, f"{', '.join(ress)} = scf.if {c} -> ({', '.join(['i32'] * nres)}) {{")
         else:
             self.emit(ind, f"scf.if {c} {{")
         self.block(ind + 1, then_scope, depth + 1, rng.randint(0 if has_else else 1, 3), in_loop)
         if with_res:
-            self.emit(ind + 1, f"scf.yield {rng.choice(then_scope['i32'])} : i32")
+            self.emit(ind + 1, f"scf.yield {', '.join(rng.choice(then_scope['i32']) for _ in range(nres))} : {', '.join(['i32'] * nres)}")
         else:
             self.emit(ind + 1, "scf.yield")
         if has_else:
@@ -340,12 +352,12 @@ class Gen:
             self.emit(ind, "} else {")
             self.block(ind + 1, else_scope, depth + 1, rng.randint(0, 3), in_loop)
             if with_res:
-                self.emit(ind + 1, f"scf.yield {rng.choice(else_scope['i32'])} : i32")
+                self.emit(ind + 1, f"scf.yield {', '.join(rng.choice(else_scope['i32']) for _ in range(nres))} : {', '.join(['i32'] * nres)}")
             else:
                 self.emit(ind + 1, "scf.yield")
         self.emit(ind, "}")
         if with_res:
-            scope["i32"].append(res)
+            scope["i32"].extend(ress)
         self.skel.append(")")
 
     def call(self, ind, scope):
